@@ -121,6 +121,10 @@ TrOut ==
     /\ phase = "done"
     /\ IF res.err
        THEN R.res = "err" /\ UNCHANGED last
+       ELSE IF R.res = "err"
+       \* the tree returned a draw, but the step-size search that is re-run after the first change of the
+       \* transformation hit an unrecoverable error: the call reports it (C05) and the draw is not delivered
+       THEN R.after = "search_err" /\ UNCHANGED last
        ELSE /\ R.res = "ok"
             /\ R.ph = res.tag.ph
             /\ R.depth = res.depth /\ R.idx = res.idx
